@@ -165,3 +165,22 @@ def blob_equiv(client_val, driver_val):
     if driver_val is None:
         return client_val is None or client_val == (b"", "") or client_val == (b"", None)
     return client_val == driver_val
+
+
+REFRESH = {"text": "refreshed", "number": 77.5, "switch": "On", "light": "Alert"}
+
+
+def read_refresh_handlers(kind):
+    """handler factory for mc.gen.drivers.build_class: a plain Read handler on element A of the target vector that
+    refreshes the element from 'the hardware' (reset_value), as the Read event is documented to be used"""
+    from indi.device.events import Read, on
+
+    def factory(defs):
+        el = defs["g1"].vectors["t"].elements["a"]
+
+        def refresh(self, event):
+            event.element.reset_value(REFRESH[kind])
+
+        return {"refresh_a": on(el, Read)(refresh)}
+
+    return factory
